@@ -12,14 +12,14 @@ import (
 )
 
 type Clause struct {
-	Local bool  // proved for the function itself but not assumed by its callers (keeps callers' queries small)
-	Kind string // requires, ensures, assume, invariant, decreases, lemma
-	Name string // lemma name
-	Tags []string
-	Text string
-	Expr *CExpr
-	File string
-	Line int
+	Local bool   // proved for the function itself but not assumed by its callers (keeps callers' queries small)
+	Kind  string // requires, ensures, assume, invariant, decreases, lemma
+	Name  string // lemma name
+	Tags  []string
+	Text  string
+	Expr  *CExpr
+	File  string
+	Line  int
 }
 
 type LoopSpec struct {
@@ -72,14 +72,15 @@ type Contract struct {
 	AllocBound *Clause
 	AllocSite  *Clause
 	NoReads    []*DelegateSpec // Callee = "Type.field": the function never reads that struct field
-	NoGlobals  []string // tags: the function (and what it inlines) references no package-level variable
+	NoGlobals  []string        // tags: the function (and what it inlines) references no package-level variable
 	Delegates  *DelegateSpec
-	Stale      []string // results / parameters whose pointee holds stale (history dependent) contents
-	Cleans     []string // parameters whose pointee is completely overwritten
+	Stale      []string        // results / parameters whose pointee holds stale (history dependent) contents
+	Cleans     []string        // parameters whose pointee is completely overwritten
 	NeedsClean []*DelegateSpec // Callee = parameter name: the pointee must not be stale at the call
-	MapInv     *Clause  // invariant over (key, val) of the maps this function touches: assumed on lookup/range, proved on update
-	UseLocals  bool     // assume the local (value-level) clauses of callees too
-	Trust      []string // obligation kinds assumed instead of proved in this function (reported)
+	AtCalls    []*Clause       // Name = callee key; expression over the caller's names and arg0..argN, proved at every such call
+	MapInv     *Clause         // invariant over (key, val) of the maps this function touches: assumed on lookup/range, proved on update
+	UseLocals  bool            // assume the local (value-level) clauses of callees too
+	Trust      []string        // obligation kinds assumed instead of proved in this function (reported)
 	Keeps      []*WriteSpec
 	Loops      map[int]*LoopSpec
 	Fresh      []string // result names that are fresh allocations
@@ -382,6 +383,26 @@ func (sp *Specs) parseLine(cur **Contract, line, file string, ln int) error {
 		for _, f := range strings.Fields(rest) {
 			c.NeedsClean = append(c.NeedsClean, &DelegateSpec{Tags: tags, Callee: f})
 		}
+	case "atcall":
+		parts := strings.SplitN(rest, " ", 2)
+		if len(parts) != 2 {
+			return fmt.Errorf("atcall <callee> <expr>")
+		}
+		text := strings.TrimSpace(parts[1])
+		var atags []string
+		if strings.HasPrefix(text, "[") {
+			if j := strings.Index(text, "]"); j > 0 {
+				atags = parseTags(text[:j+1])
+				text = strings.TrimSpace(text[j+1:])
+			}
+		}
+		cl, err := mk("atcall", text)
+		if err != nil {
+			return err
+		}
+		cl.Tags = atags
+		cl.Name = parts[0]
+		c.AtCalls = append(c.AtCalls, cl)
 	case "mapinvariant":
 		cl, err := mk("mapinvariant", rest)
 		if err != nil {
